@@ -95,6 +95,11 @@ func (o *OracleC04) OnOut(n *Node, st *Step, out *Out) {
 			o.viol(n, "response_with_missing_tx", "height %d view %d: %s", p.H, p.V, why)
 			return
 		}
+		// the application's policy callback must not have rejected this very proposal
+		if v, asked := n.facts.policy[q.Hash()]; asked && !v {
+			o.viol(n, "response_to_proposal_rejected_by_policy", "height %d view %d: the application's VerifyPrepareRequest rejected proposal %s, yet a prepare response names it", p.H, p.V, q.Hash())
+			return
+		}
 		pr := q.Body.(*PrepReq)
 		ck := contentKey(d.BlockIndex, n.initTipHash, pr.TS, pr.Nnc, pr.Hashes)
 		if v, ok := n.facts.verdict[ck]; !ok || !v {
@@ -135,6 +140,10 @@ func (o *OracleC04) OnOut(n *Node, st *Step, out *Out) {
 			if pp.T == dbft.PrepareRequestType && pp.Hash() == q.Hash() {
 				cnt++
 			} else if r, ok := pp.Body.(*PrepResp); ok && pp.T == dbft.PrepareResponseType && r.Prep == q.Hash() {
+				if v, asked := n.facts.policy[pp.Hash()]; asked && !v && i != d.MyIndex {
+					o.viol(n, "rejected_response_kept", "height %d view %d: the prepare response of validator %d was rejected by the application's VerifyPrepareResponse and is still in the table", p.H, p.V, i)
+					return
+				}
 				cnt++
 			}
 		}
